@@ -372,6 +372,29 @@ def run(ctx, idx):
     for d_, r_, role in ((rd[0], rd[1], "read"), (wr[0], wr[1], "write")):
         pos = [f_ for f_ in r_.findings if f_[0] in ("equivariance", "shape")]
         con_ = "%s.execute::shape-kept" % d_.key
+        if role == "write" and pos:
+            # block-wise copy: `for b in range(N): s = b * B; target[s:s+B] = source[s:s+B]` - the same rows on both sides, so no cell
+            # moves; what has to hold is that the blocks cover every row: N is the row count divided by B ROUNDED UP
+            blk = None
+            for lp_ in [n_ for n_ in ast.walk(d_.execute.node) if isinstance(n_, ast.For) and isinstance(n_.iter, ast.Call) and K.src(n_.iter.func) == "range" and len(n_.iter.args) == 1]:
+                sts_ = [st_ for st_ in lp_.body if isinstance(st_, ast.Assign) and len(st_.targets) == 1 and isinstance(st_.targets[0], ast.Subscript) and isinstance(st_.value, ast.Subscript)
+                        and K.src(st_.targets[0].slice) == K.src(st_.value.slice) and isinstance(st_.value.slice, ast.Slice)]
+                if sts_ and all(any(f_[1] == x_.lineno for x_ in ast.walk(lp_) if hasattr(x_, "lineno")) for f_ in pos):
+                    blk = (lp_, sts_[0])
+            if blk is not None:
+                n_src = K.src(blk[0].iter.args[0]).replace(" ", "")
+                sl_ = blk[1].value.slice
+                lo_src = K.src(K.expand(d_.execute, sl_.lower) if isinstance(sl_.lower, ast.Name) else sl_.lower).replace(" ", "") if sl_.lower is not None else ""
+                import re as _re
+                ceil_ = bool(_re.fullmatch(r"-\(-(.+)//(\w+)\)", n_src)) or bool(_re.fullmatch(r"\((.+)\+(\w+)-1\)//(\w+)", n_src)) or "ceil(" in n_src
+                floor_ = (not ceil_) and "//" in n_src
+                if ceil_ and lo_src:
+                    ctx.hold("C18.f", con_, d_.module.rel, blk[0].lineno, "block-wise copy of the same rows on both sides; the block count is the row count divided by the block size, rounded up")
+                    continue
+                if floor_:
+                    ctx.violate("C18.f", con_, d_.module.rel, blk[0].lineno, "the grid is written in `%s` blocks of rows - the row count divided by the block size rounded DOWN: the rows after the last full block are never written (they keep the fill value and read back as missing)" % K.src(blk[0].iter.args[0])[:60])
+                    continue
+                raise AnalysisError("C18.f: the grid is written block by block (`range(%s)`); whether the blocks cover every row is outside the forms read here" % K.src(blk[0].iter.args[0])[:40])
         shapes = sorted({v.shape for s_, v, fk in r_.returns if isinstance(v, Arr)}) if role == "read" else []
         if pos:
             ctx.violate("C18.f", con_, d_.module.rel, pos[0][1], "%s: a grid with an axis of length 1 (or of another rank) does not come back from the file with the shape it was written with" % pos[0][2])
